@@ -852,10 +852,12 @@ def _run_subject_strict(ctx, idx, s, case, collect):
                     if d:
                         ctx.fail(case, f'argument altered by the second construction from the same arguments: {d}',
                                  site=s['name'] + '/inputs')
+                # (observation only - the property does not say that two constructions agree; a difference would point at state
+                # that outlives a call, cf. the lint `no_state_shared_between_calls`)
                 d = elem_diff(obj, obj2, 'second', loose=True)
                 if d:
-                    ctx.fail(case, f'second construction from the same arguments differs: {d}', site=s['name'] + '/second-call')
-                ctx.hist('second_construction', 'compared')
+                    ctx.note(f"{s['name']} {s['variant']}: second construction from the same arguments differs: {d}")
+                ctx.hist('second_construction', 'differs' if d else 'same')
             except Exception as e:  # noqa: BLE001
                 ctx.fail(case, f'second call with the same (unaltered) arguments failed: {type(e).__name__}: {str(e)[:150]}',
                          site=s['name'] + '/second-call')
